@@ -43,7 +43,42 @@ slack = st.sampled_from([0, 0, 0, 1, 2, 5])
 
 
 @st.composite
+def boundary_cases(draw):
+    """Kitty renders whose raw payload per transmission is an exact multiple of 3072 bytes (base64 length
+    an exact multiple of the 4096-character chunk size) or one pixel off: the chunk-framing edge."""
+    method = draw(st.sampled_from(["lines", "whole"]))
+    k = draw(st.integers(1, 3))
+    off = draw(st.sampled_from([0, 0, 0, -1, 1]))
+    opaque = draw(st.booleans())
+    ident = draw(st.sampled_from([["kitty", "0.26.5"], ["konsole", "22.04.0"], ["", ""]]))
+    if method == "lines":
+        # strip = (W*8) x 16 px; RGB: W*8*16*3 = 3072*(W/8) bytes; RGBA: W*8*16*4 = 4096*(W/8)... use W multiple of 6
+        W = 8 * k + off if opaque else 6 * k + off
+        W = max(1, W)
+        H = draw(st.integers(1, 3))
+        img = {"mode": "RGB" if opaque else "RGBA", "w": 4, "h": 4, "palette": [[10, 20, 30, 255], [200, 100, 50, 128 if not opaque else 255]],
+               "idx": [i % 2 for i in range(16)]}
+        size = ["manual", W, H]
+    else:
+        # WHOLE transmits min(source, render) pixels: a 32 x (32k/.. ) RGB source = 3072*k bytes
+        w, h = (32, 32 * k) if opaque else (32, 24 * k)
+        h = max(1, h + off)
+        img = {"mode": "RGB" if opaque else "RGBA", "w": w, "h": h, "palette": [[10, 20, 30, 255], [200, 100, 50, 255 if opaque else 77]],
+               "idx": [(i // 3) % 2 for i in range(w * h)]}
+        size = ["manual", draw(st.integers(4, 6)), draw(st.integers(2 * k + 1, 2 * k + 3))]
+    return {
+        "style": "kitty", "source": {"kind": "pil", "image": img},
+        "cfg": {"name": ident[0], "version": ident[1], "cell": [8, 16], "fg": None, "bg": None, "cols": 40, "rows": 12},
+        "size": size, "entry": "renderer", "slack": [draw(slack), draw(slack), draw(slack), draw(slack)], "ratio": 0.5,
+        "alpha": None if opaque else 0.5, "style_args": {"method": method, "compress": 0, "mix": draw(st.booleans())},
+        "boundary": True,
+    }
+
+
+@st.composite
 def cases(draw):
+    if draw(st.integers(0, 11)) == 0:
+        return draw(boundary_cases())
     style = draw(st.sampled_from(["block", "kitty", "iterm2"]))
     animated = draw(st.integers(0, 4)) == 0
     if animated:
@@ -220,7 +255,7 @@ def _check(case, rec, image, Screen, anchor, DEFAULT_SGR):
     akind = "none" if case["alpha"] is None else ("thr" if isinstance(case["alpha"], float) else ("bg" if case["alpha"] == "#" else "hex"))
     rec.label(f"style:{style}", f"profile:{profile}", f"entry:{entry}", f"method:{method}",
               "right_margin" if right else "no_right", "bottom_row" if bottom else "no_bottom",
-              "animated" if "frame" in case["source"] else "still")
+              "animated" if "frame" in case["source"] else "still", *(["chunk_boundary"] if case.get("boundary") else []))
     if H >= 2 or x0 > 0 or right:
         rec.nontriv([style, method, profile, W, H, right, bottom, akind, entry])
 
@@ -300,7 +335,7 @@ CLAUSES = [
         check_render,
         cases,
         budget={"quick": 1500, "thorough": 60000},
-        floors={"right_margin": 0.1, "bottom_row": 0.1, "style:kitty": 0.15, "style:iterm2": 0.15,
+        floors={"right_margin": 0.1, "bottom_row": 0.1, "chunk_boundary": 0.03, "style:kitty": 0.15, "style:iterm2": 0.15,
                 "style:block": 0.15},
     ),
 ]
